@@ -1,3 +1,4 @@
+from copy import deepcopy
 from dataclasses import dataclass, field
 from typing import (
     AbstractSet,
@@ -248,10 +249,14 @@ class TypeCheckMethod(DeserializationMethod):
 @dataclass
 class AnyMethod(DeserializationMethod):
     constraints: Dict[type, Tuple[Constraint, ...]]
+    copy: bool = False
 
     def deserialize(self, data: Any) -> Any:
         if type(data) in self.constraints:
             validate_constraints(data, self.constraints[type(data)], None)
+        if self.copy and isinstance(data, (list, dict)):
+            # no_copy=False: the result shares no container with the input
+            return deepcopy(data)
         return data
 
 
